@@ -98,12 +98,12 @@ pub fn table_defs(cfg: &TableCfg) -> String {
                     "n" => format!("line[2] => n INT{}", nmod),
                     "r" => "line[3] => r REAL".to_owned(),
                     "b" => "line[4] => b BOOLEAN".to_owned(),
-                    "d" => "line[5], line[6], line[7] => d TIMESTAMP".to_owned(),
+                    "d" => "line[5], line[6], line[7], line[8], line[9], line[10], line[11] => d TIMESTAMP".to_owned(),
                     _ => unreachable!(),
                 });
             }
             format!(
-                "CREATE TABLE t(line = '^E (?:k=([a-z ]+))?;(?:n=(-?[0-9a-z]+))?;(?:r=(-?[0-9.]+))?;(x)?(?: ([0-9]{{4}})-([0-9]{{2}})-([0-9]{{2}}))?$', {});",
+                "CREATE TABLE t(line = '^E (?:k=([a-z ]+))?;(?:n=(-?[0-9a-z]+))?;(?:r=(-?[0-9.]+))?;(x)?(?: ([0-9]{{4}})-([0-9]{{2}})-([0-9]{{2}})T([0-9]{{2}}):([0-9]{{2}}):([0-9]{{2}})\\.([0-9]{{3}}))?$', {});",
                 cols.join(", ")
             )
         }
@@ -154,7 +154,8 @@ pub struct LineSpec {
     /// k/4 rendered
     pub r: Option<String>,
     pub b: bool,
-    pub d: Option<(i32, u32, u32)>,
+    /// year, month, day, hour, minute, second, millisecond
+    pub d: Option<(i32, u32, u32, u32, u32, u32, u32)>,
 }
 
 pub const KEYS: [&str; 5] = ["a", "b", "c", "dd", "e"];
@@ -221,7 +222,16 @@ pub fn gen_line_spec(rng: &mut Rng, cfg: &TableCfg, lc: &LineCfg) -> LineSpec {
         Some(fmt_quarter(rng.range(-40, 40)))
     };
     let b = rng.chance(1, 2);
-    let d = if cfg.with_ts && rng.below(100) >= lc.null_pct { Some((2020 + rng.below(3) as i32, 1 + rng.below(12) as u32, 1 + rng.below(28) as u32)) } else { None };
+    let d = if cfg.with_ts && rng.below(100) >= lc.null_pct {
+        if rng.chance(1, 2) {
+            // timestamps that share their whole second and differ in the fraction only
+            Some((2021, 3, 4, 10, 0, rng.below(2) as u32, *rng.pick(&[0u32, 250, 400, 999])))
+        } else {
+            Some((2020 + rng.below(3) as i32, 1 + rng.below(12) as u32, 1 + rng.below(28) as u32, rng.below(24) as u32, rng.below(60) as u32, rng.below(60) as u32, rng.below(1000) as u32))
+        }
+    } else {
+        None
+    };
     LineSpec { k, n, r, b, d }
 }
 
@@ -244,8 +254,8 @@ pub fn render_line(cfg: &TableCfg, s: &LineSpec) -> String {
             if s.b {
                 out.push('x');
             }
-            if let Some((y, m, d)) = s.d {
-                out.push_str(&format!(" {:04}-{:02}-{:02}", y, m, d));
+            if let Some((y, m, d, h, mi, sec, ms)) = s.d {
+                out.push_str(&format!(" {:04}-{:02}-{:02}T{:02}:{:02}:{:02}.{:03}", y, m, d, h, mi, sec, ms));
             }
             out
         }
@@ -303,7 +313,7 @@ pub enum Cell {
     Real(f64),
     Bool(bool),
     Text(String),
-    Date(i32, u32, u32),
+    Date(i32, u32, u32, u32, u32, u32, u32),
 }
 
 impl Cell {
@@ -319,7 +329,7 @@ impl Cell {
             Cell::Real(x) => format!("{:.2}", x),
             Cell::Bool(x) => format!("{}", x),
             Cell::Text(x) => format!("'{}'", x),
-            Cell::Date(y, m, d) => format!("{:04}-{:02}-{:02} 00:00:00.000", y, m, d),
+            Cell::Date(y, m, d, h, mi, sec, ms) => format!("{:04}-{:02}-{:02} {:02}:{:02}:{:02}.{:03}", y, m, d, h, mi, sec, ms),
         }
     }
 }
@@ -377,7 +387,7 @@ pub fn expected_row(cfg: &TableCfg, s: &LineSpec) -> Option<Vec<Cell>> {
             "r" => r_val.clone(),
             "b" => Cell::Bool(s.b),
             "d" => match s.d {
-                Some((y, m, d)) => Cell::Date(y, m, d),
+                Some((y, m, d, h, mi, sec, ms)) => Cell::Date(y, m, d, h, mi, sec, ms),
                 // no date group: year 0, month 1, day 1 is what the assembly rule gives when groups are absent -> see below
                 None => Cell::Null,
             },
@@ -774,7 +784,7 @@ pub fn gen_aggregate(rng: &mut Rng, cfg: &TableCfg, ac: &AggCfg) -> Query {
     }
     q.projections = projections;
     if rng.chance(1, 3) {
-        q.filter = Some(gen_filter(rng, cfg, p));
+        q.filter = Some(if join && rng.chance(1, 2) { gen_filter_joined(rng) } else { gen_filter(rng, cfg, p) });
     }
     if rng.chance(1, 3) {
         q.having = Some(gen_having(rng, cfg, &q.group_by, p));
